@@ -183,7 +183,13 @@ func newRunner(cs caseSpec, env *wenv, withFaulty bool, file bool, st *runStats)
 			}
 		}
 		env.execs++
-		ac := &actor{idx: a, name: archNames[a], self: tla.MakeString(fmt.Sprintf("%s%d", strings.ToLower(archNames[a]), env.w)), secs: secs, store: map[string]string{}}
+		selfName := fmt.Sprintf("%s%d", strings.ToLower(archNames[a]), env.w)
+		if file {
+			// the log file is found by its name (trace-<self>-*.log): a self that is unique per execution cannot
+			// be confused with a file left behind by an earlier execution of this worker
+			selfName = fmt.Sprintf("%sx%d", selfName, env.execs)
+		}
+		ac := &actor{idx: a, name: archNames[a], self: tla.MakeString(selfName), secs: secs, store: map[string]string{}}
 		ac.script = &gate2.Script{Prog: gate2.Program{Arch: ac.name, Vars: r.b.vars[a], Sections: secs}}
 		ac.script.ValueOf = func(o gate2.Op) (tla.Value, bool) {
 			if r.kinds[o.R] == "sharedfn" && o.I == nil && o.S == "" {
@@ -242,12 +248,14 @@ func cleanTraceFiles(env *wenv) {
 	if err != nil {
 		return
 	}
-	suffix := fmt.Sprintf("%d-", env.w)
+	w := fmt.Sprint(env.w)
 	for _, e := range ents {
 		n := e.Name()
-		// trace-<a|b|c><worker>-<random>.log
-		if len(n) > 7 && strings.HasPrefix(n, "trace-") && strings.HasPrefix(n[7:], suffix) {
-			os.Remove(filepath.Join(dir, n))
+		// trace-<a|b|c><worker>-<random>.log  or  trace-<a|b|c><worker>x<execution>-<random>.log
+		if len(n) > 7 && strings.HasPrefix(n, "trace-") && strings.HasPrefix(n[7:], w) {
+			if rest := n[7+len(w):]; len(rest) > 0 && (rest[0] == '-' || rest[0] == 'x') {
+				os.Remove(filepath.Join(dir, n))
+			}
 		}
 	}
 }
